@@ -113,7 +113,7 @@ impl PointCloud {
                 {
                     continue;
                 }
-                guids.push(n.text().unwrap_or("").to_owned())
+                guids.push(xml::text(&n).unwrap_or_default())
             }
             Some(guids)
         } else {
